@@ -786,3 +786,14 @@ Theorem C03_union_line_breaks_relations :
     /\ ~ Relations (build_self ca_cmd) (mt st).
 Proof. exact union_line_breaks_relations. Qed.
 Print Assumptions C03_union_line_breaks_relations.
+
+(** the hypothesis [strict_chain_b] is needed: a level ON the chain that ignores errors records the
+    unvalidated matcher of its child (root -> s (ignore_errors) -> t (a required argument), line `s t`) *)
+Theorem C03_strict_chain_needed :
+  plain ig_root = true /\ valid ig_root = true /\ is_set s_ignore_errors (build_self ig_root) = false
+  /\ exists m sm, do_parse ig_root [[115]; [116]] = OOk m /\ Globals.chain m = [[115]; [116]]
+       /\ strict_chain_b (build_self ig_root) m = false
+       /\ match sub_matches m with Some m1 => sub_matches m1 | None => None end = Some sm
+       /\ ~ Relations (built_sub (built_sub (build_self ig_root) [115]) [116]) (level_matcher sm).
+Proof. exact strict_chain_needed. Qed.
+Print Assumptions C03_strict_chain_needed.
